@@ -1,6 +1,6 @@
 (* Wire entry point for C20.  Ops:
-     (0 preds obs chains names)            -> result of (mse, mse_variance, inter_chain, mean_predictions), each a result
-     (1 preds obs chains names)            -> result of the reloaded evaluation (preds obs chains names)
+     (0 m preds obs chains names)          -> result of (mse, mse_variance, inter_chain, mean_predictions), each a result
+     (1 m preds obs chains names)          -> result of the reloaded evaluation (preds obs chains names)
      (2 arity sids tids obs)               -> result of the single-effect dict as ((s t) v) in insertion order
      (3 arity sids tids obs)               -> result of the single-effect array
      (4 strict arity sids tids obs)        -> result of (sample ids, id rows, synergies)
@@ -34,19 +34,19 @@ Definition tab_f (table : list (Z * list Z * list Qc)) (th : nat) (sid : Z) (ids
 
 Definition run_c20 (orc : oracle) (s : sexp) : sexp :=
   match s with
-  | SL [SZ 0; p; o; c; nm] =>
-      match as_Qcm p, as_Qcs o, as_Zs c, as_Zm nm with
-      | Some p, Some o, Some c, Some nm =>
+  | SL [SZ 0; m; p; o; c; nm] =>
+      match as_nat m, as_Qcm p, as_Qcs o, as_Zs c, as_Zm nm with
+      | Some m, Some p, Some o, Some c, Some nm =>
           of_result (fun e => SL [of_result of_Qc (ev_mse e); of_result of_Qc (ev_mse_variance e);
                                   of_result of_Qc (ev_inter_chain e); of_result of_Qcs (ev_mean_predictions e)])
-                    (mk_eval p o c nm)
-      | _, _, _, _ => bad_input
+                    (mk_eval m p o c nm)
+      | _, _, _, _, _ => bad_input
       end
-  | SL [SZ 1; p; o; c; nm] =>
-      match as_Qcm p, as_Qcs o, as_Zs c, as_Zm nm with
-      | Some p, Some o, Some c, Some nm =>
-          of_result of_eval (dor e <- mk_eval p o c nm; ev_load (ev_save e))
-      | _, _, _, _ => bad_input
+  | SL [SZ 1; m; p; o; c; nm] =>
+      match as_nat m, as_Qcm p, as_Qcs o, as_Zs c, as_Zm nm with
+      | Some m, Some p, Some o, Some c, Some nm =>
+          of_result of_eval (dor e <- mk_eval m p o c nm; ev_load (ev_save e))
+      | _, _, _, _, _ => bad_input
       end
   | SL [SZ 2; a; sd; td; ob] =>
       match as_nat a, as_Zs sd, as_Zm td, as_Qcs ob with
